@@ -5,7 +5,8 @@ sorted, randomly permuted, supersets with unused values mixed in, the same list 
 the data, partitions=None) and every output is compared INSIDE COQ (Model/Classes.v) with the SPEC over VALUE classes:
 
   classes_part   ANOVA / NICV / SNRDistinguisher: every (word, sample) entry against F / NICV / SNR over the groups of samples by
-                 class value (C04's part_check), bit-identical results across the variants on designs whose float arithmetic
+                 class value (tolerance rule of C04: obs_ok), the documented attributes counters / sum against the count / sum of the
+                 traces whose value equals parts[k], bit-identical results across the variants on designs whose float arithmetic
                  is exact (float64, class counts and totals powers of two), the automatic class set against the generated rule,
                  the tabulation and "contains every value of the first batch";
   classes_mia    MIADistinguisher: compute() against the mutual information over the declared VALUES (mi_values), the joint
@@ -53,7 +54,7 @@ TRUSTED_BASE = [
     'correspondence harness tools/props/C12.py: numpy array construction, float.hex export, math.log for ln 1..ln n, the removal of '
     'undeclared traces for the `filtered` variants (re-done and compared inside Coq), the memoisation of _define_lut_func per '
     'class list in the child interpreters; tools/props/C14.py run_case / coq_case for the template attacks (re-used)',
-    'the impl-models and tolerance rules of C04 (Model/Partitioned.v part_check), C13 (Model/Mia.v comp, phi_ln) and C14 '
+    'the impl-models and tolerance rules of C04 (Model/Partitioned.v run_entry, obs_ok), C13 (Model/Mia.v comp, phi_ln) and C14 '
     '(Model/Template.v tcase_check) are re-used as they are; numpy.linalg.pinv is an oracle (theorems for every function pinv)',
     'bit-identity across class lists is demanded only where every float operation is exact or applied to identical operands: '
     'float64, samples |x| <= 63, class counts and declared totals powers of two (SNR supersets: numbers of classes powers of two); '
@@ -174,7 +175,15 @@ def _run_part(case):
 
     def collect(d):
         r = np.asarray(d.compute(), dtype='float64')
-        return {'results': [[float(x) for x in row] for row in r], 'shape': list(r.shape)}
+        o = {'results': [[float(x) for x in row] for row in r], 'shape': list(r.shape)}
+        # the documented per-class attributes (exact integers on the generated inputs), when they exist
+        cn, sm = getattr(d, 'counters', None), getattr(d, 'sum', None)
+        if cn is not None and sm is not None:
+            cn, sm = np.asarray(cn, dtype='float64'), np.asarray(sm, dtype='float64')
+            if cn.ndim == 2 and sm.ndim == 3 and cn.size + sm.size <= 8192 and np.all(cn == np.round(cn)) and np.all(sm == np.round(sm)):
+                o['counters'] = [[int(x) for x in row] for row in cn.tolist()]
+                o['sums'] = [[[int(x) for x in w] for w in s_] for s_ in sm.tolist()]
+        return o
     return _run_dist_variants(case, make, collect)
 
 
@@ -604,7 +613,7 @@ class PartKind(_PoolKind):
             'permutation of 0..K-1 / values up to 2^17-1, K = 2..14), reversed, sorted, shuffled, supersets with unused values mixed in '
             '(crossing the kernel switch at 9 classes), the same list on data WITHOUT the undeclared traces; list / ndarray int32 / '
             'uint16 / int64 declarations; data with declared, unused-declared and undeclared values; every (word, sample) entry of '
-            'every variant against the spec over value classes, bit-identical results where the arithmetic is exact; partitions=None '
+            'every variant against the spec over value classes, counters / sum per class exactly, bit-identical results where the arithmetic is exact; partitions=None '
             'with first-batch maxima 0,1,8,9,10,63,64,65,254,255; non-trivial = a defined entry and >= 2 variants (or automatic)')
 
     def _gen(self, rng, tier):
@@ -649,9 +658,11 @@ class PartKind(_PoolKind):
                 ob = 'None'
             else:
                 ob = '(Some [])'          # exception / nothing fed: never accepted
-            vs.append('{| pv_parts := %s; pv_filtered := %s; pv_exact := %s; pv_obs_parts := %s; pv_obs := %s |}' % (
-                'None' if v['parts'] is None else '(Some %s)' % _zl(v['parts']), C.coq_bool(v.get('filtered', False)),
-                C.coq_bool(v.get('exact', False)), _zl(o.get('partitions', [])), ob))
+            vs.append('{| pv_parts := %s; pv_filtered := %s; pv_exact := %s; pv_obs_parts := %s; pv_obs_counters := %s; pv_obs_sums := %s; '
+                      'pv_obs := %s |}' % (
+                          'None' if v['parts'] is None else '(Some %s)' % _zl(v['parts']), C.coq_bool(v.get('filtered', False)),
+                          C.coq_bool(v.get('exact', False)), _zl(o.get('partitions', [])), C.coq_list(o.get('counters', []), _zl),
+                          C.coq_list(o.get('sums', []), lambda m: C.coq_list(m, _zl)), ob))
         return '{| cq_metric := Partitioned.%s; cq_prec := %s; cq_batches := %s; cq_variants := %s |}' % (
             case['metric'], 'F32' if case['prec'] == 'float32' else 'F64', _traces_coq(case), C.coq_list(vs))
 
